@@ -209,6 +209,7 @@ pub fn parse_line(line: &str) -> LineInfo {
             sep_made = String::from("'");
             token.push(c);
             has_backslash = false;
+            new_round = false;
             continue;
         }
 
